@@ -82,6 +82,14 @@ func PurgeBuildReverseIndex(stores context2.Stores, opts ...PurgeOption) (*Purge
 		zap.Stringer("blob_store", blob),
 	)
 
+	if !options.resume && options.indexStart == 0 {
+		// a new index replaces the previous one: chunks left over from an older, longer index would otherwise
+		// be loaded by delete-unused together with the new ones
+		if err = PurgeDropReverseIndex(stores, opts...); err != nil {
+			return nil, err
+		}
+	}
+
 	if options.resume {
 		// reload existing index files into a fresh local KV store
 		lastIndex, numKeys, ts, erp := preloadIndexFiles(ctx, stores, db, logger, options)
